@@ -96,6 +96,26 @@ def len_checked(f, bb, coll_local):
     return False
 
 
+def len_eq_checked(f, bb, coll_local):
+    """a dominating `len == N` / `len != N` test on (a view of) the same collection"""
+    bases = base_locals(f, coll_local)
+    lens = _len_locals(f, bases)
+    dom = f.dominators()[bb]
+    for w in dom:
+        t = f.term(w)
+        if t["k"] != "switch" or w == bb:
+            continue
+        l = A._opl(t["discr"])
+        for b2, kind, x in f.defs().get(l, []) if l is not None else []:
+            if kind == "stmt" and x.get("k") == "binop" and x.get("op") in ("Eq", "Ne"):
+                for o in x.get("o", []):
+                    if "p" in o and (o["p"][0] in lens or (f.depends_on(o["p"][0])[0] & lens)):
+                        return True
+            if kind == "call" and x.name in ("eq", "ne") and any("p" in a_ and ((f.depends_on(a_["p"][0])[0] | {a_["p"][0]}) & lens) for a_ in x.args):
+                return True
+    return False
+
+
 def _len_locals(f, bases):
     """locals holding the length of (a view of) one of the base collections: len() results and PtrMetadata / Len rvalues"""
     out = set()
@@ -256,6 +276,11 @@ def classify_call(prog, f, c):
             return True, ("index checked to be a char boundary" if okb else None)
         for a in c.args:
             if "p" in a:
+                if c.name in ("copy_from_slice", "clone_from_slice"):
+                    # panics unless both lengths are *equal*: an upper bound on the source (`len > N => Err`) is not enough
+                    if len_eq_checked(f, c.bb, a["p"][0]):
+                        return True, "guarded by a dominating equality test of the length"
+                    continue
                 if len_checked(f, c.bb, a["p"][0]):
                     return True, "guarded by a dominating length check"
                 for b in base_locals(f, a["p"][0]):
